@@ -110,6 +110,7 @@ def gen_behaviour(rng, tagc):
     body = gen_content(tagc[0], n)
     lm = rng.choice(["valid", "valid", "absent", "malformed"])
     b = {"shape": shape, "body_len": n, "tag": tagc[0], "lm": lm, "date": DATE + 60 * rng.randint(0, 999)}
+    b["lm_zone"] = random.Random(f"{b['date']}-{n}-{shape}").choice(LM_ZONES)   # (own PRNG: keeps the main stream unchanged)
     if shape == "status":
         b["status"] = rng.choice(STATUSES)
         if b["status"] == 204:
@@ -131,9 +132,22 @@ def gen_terminal(rng, tagc):
             return b
 
 
+LM_ZONES = ["GMT", "GMT", "GMT", "+0000", "+0200", "-0530", "UT"]
+
+
+def lm_render(ts, zone):
+    """the same instant in several spellings (RFC 5322 zones; HTTP prefers GMT but clients must read the others correctly)"""
+    import time as _t
+    if zone in ("GMT", "UT", "+0000"):
+        return _t.strftime("%a, %d %b %Y %H:%M:%S ", _t.gmtime(ts)) + zone
+    sign = 1 if zone[0] == "+" else -1
+    off = sign * (int(zone[1:3]) * 3600 + int(zone[3:5]) * 60)
+    return _t.strftime("%a, %d %b %Y %H:%M:%S ", _t.gmtime(ts + off)) + zone
+
+
 def lm_header(b):
     if b["lm"] == "valid":
-        return [("Last-Modified", httpd.http_date(b["date"]))]
+        return [("Last-Modified", lm_render(b["date"], b.get("lm_zone", "GMT")))]
     if b["lm"] == "malformed":
         return [("Last-Modified", "the day before yesterday")]
     return []
